@@ -1193,6 +1193,10 @@ class ServiceInstance:
                 self._send_offer(stop=True)
 
     def _send_offer(self, remote: _T_OPT_SOCKADDR = None, stop: bool = False) -> None:
+        if stop:
+            # an answer to a FindService may still wait in a unicast send collector:
+            # it has to leave before the StopOffer does, not after it
+            self.announcer.flush_offers(self.service)
         entry = self.service.create_offer_entry(
             self.timings.ANNOUNCE_TTL if not stop else 0
         )
@@ -1293,6 +1297,14 @@ class SendCollector(typing.Generic[KT]):
     def cancel(self) -> None:
         self._handle.cancel()
 
+    def flush(self) -> None:
+        """
+        ends the collection early: hands over what was collected so far right now.
+        """
+        if not self.done:
+            self._handle.cancel()
+            self._handle_timeout()
+
 
 class ServiceAnnouncer:
     # TODO doc
@@ -1323,6 +1335,21 @@ class ServiceAnnouncer:
         # FIXME stops and starts for the same instance in the same queue make no sense
         # and should probably be cleaned out
         queue.append(entry)
+
+    def flush_offers(self, service: someip.config.Service) -> None:
+        """
+        sends out the unicast send collectors that hold an offer of the given service
+        """
+        for remote, queue in list(self.send_queues.items()):
+            if remote is None or queue.done:
+                continue
+            if any(
+                entry.sd_type == someip.header.SOMEIPSDEntryType.OfferService
+                and entry.ttl != 0
+                and service.matches_offer(entry)
+                for entry in queue.data
+            ):
+                queue.flush()
 
     def announce_service(self, instance: ServiceInstance) -> None:
         if self.started:
